@@ -1,10 +1,10 @@
 #!/bin/bash
 # Replays the C18 finding against the real code in /repo (overlay test, nothing is
-# written to /repo). FAIL = the defect is present (it was, before fix: 5fc56db2f).
+# written to /repo). FAIL = the defect is present (they were, before fix: 5fc56db2f and the chmod fix).
 cd "$(dirname "$0")/.."; . ./env.sh
 ov=$(mktemp /tmp/findings-ov-XXXX.json)
 cat > $ov <<J
-{"Replace": {"/repo/internal/restorer/zz_finding_c18_test.go": "/verif/findings/C18_chmod_through_duplicate_symlink_test.go"}}
+{"Replace": {"/repo/internal/restorer/zz_finding_c18_test.go": "/verif/findings/C18_chmod_through_duplicate_symlink_test.go", "/repo/internal/restorer/zz_finding_c18b_test.go": "/verif/findings/C18_chmod_through_preexisting_symlink_test.go"}}
 J
 cd /repo && go test -overlay $ov -vet=off -timeout 120s -count=1 -run 'TestFindingC18' ./internal/restorer/ 2>&1 | tail -8
 rc=${PIPESTATUS[0]}
